@@ -119,6 +119,17 @@ class Session:
             rd = Reaction("r1", name="dup", lower_bound=0, upper_bound=1)
             rd.add_metabolites({Metabolite("B", compartment="c"): -1})
             self.pool["rdup"] = rd
+        # identifiers that the model classes accept but the solver interface refuses as a name
+        if need("X bad"):
+            self.pool["X bad"] = Metabolite("X bad", name="met X bad", compartment="c")
+        if need("r bad"):
+            rb = Reaction("r bad", name="rxn bad", lower_bound=0, upper_bound=3)
+            rb.add_metabolites({mm("A"): -1})
+            self.pool["r bad"] = rb
+        if need("r badmet"):
+            rb = Reaction("rbm", name="rxn with a refused metabolite", lower_bound=0, upper_bound=3)
+            rb.add_metabolites({mm("A"): -1, Metabolite("Y bad", compartment="c"): 1})
+            self.pool["r badmet"] = rb
         if need("G2"):
             self.pool["G2"] = Group("G2", name="group 2", members=[self.pool["r3"]])
 
@@ -181,6 +192,7 @@ def alphabet(tier="quick", family="all"):
             ("add_mets", "r1", ((("id", "nope"), 1),), True),
             ("add_mets", "r1", ((("copy", "A"), -1),), True),
             ("add_mets", "r1", ((("obj", "X"), 1),), True),
+            ("add_mets", "r1", ((("obj", "C"), 1), (("obj", "X bad"), 1)), True),
             ("add_mets", "r1", ((("obj", "B"), -1),), True),
             ("add_mets", "r1", ((("obj", "B"), 3),), False),
             ("add_mets", "r1", ((("obj", "C"), 1), (("id", "nope"), 1)), True),
@@ -198,12 +210,14 @@ def alphabet(tier="quick", family="all"):
     # 4 structure
     ops += [("add_rxns", ("r3",)), ("add_rxns", ("r3c",)), ("add_rxns", ("rdup",)),
             ("add_rxns", ("r3", "r3")),
+            ("add_rxns", ("r bad",)), ("add_rxns", ("r3", "r bad")), ("add_rxns", ("r badmet",)),
             ("remove_rxns", (("obj", "r1"),), False), ("remove_rxns", (("id", "r2"),), False),
             ("remove_rxns", (("id", "nope"),), False), ("remove_rxns", (("obj", "EX_C"),), False),
             ("remove_rxns", (("id", "r1"),), False), ("add_back", "r1"), ("add_back", "r2"),
             ("remove_rxns", (("obj", "r1"),), True), ("remove_rxns", (("id", "EX_A"), ("id", "r1")), True),
             ("remove_from_model", "r2"),
             ("add_model_mets", ("X",)), ("add_model_mets", ("A2",)), ("add_model_mets", ("X", "X")),
+            ("add_model_mets", ("X bad",)), ("add_model_mets", ("X", "X bad")),
             ("remove_mets", ("B",), False), ("remove_mets", ("B",), True), ("remove_mets", ("X",), False),
             ("remove_mets", ("A",), False),
             ("add_boundary", "B", "demand"), ("add_boundary", "B", "sink"),
@@ -225,6 +239,7 @@ def alphabet(tier="quick", family="all"):
     # 6 objective
     ops += [("objective", ("id", "r1")), ("objective", ("obj", "r2")),
             ("objective", ("dict", (("r1", 1), ("r2", 2)))), ("objective", ("id", "nope")),
+            ("objective", ("dict_detached", (("r1", 1), ("r3", 1)))),
             ("obj_coef", "r1", 3), ("obj_coef", "EX_C", 0),
             ("direction", "min"), ("direction", "maximize"), ("direction", "bogus")]
     # 7 solver level
@@ -428,6 +443,19 @@ def apply_op(S, op):
             m.objective = v
         elif kind == "obj":
             m.objective = S.rxn(v)
+        elif kind == "dict_detached":
+            # a dictionary one of whose reactions is not (or no longer) in the model
+            d = {}
+            for r, c in v:
+                if r in m.reactions:
+                    d[m.reactions.get_by_id(r)] = c
+                elif r in S.pool and getattr(S.pool[r], "_model", None) is None:
+                    d[S.pool[r]] = c
+                else:
+                    raise Disabled(r)
+            if all(getattr(r, "_model", None) is not None for r in d):
+                raise Disabled("no detached reaction")
+            m.objective = d
         else:
             m.objective = {S.rxn(r): c for r, c in v}
     elif k == "obj_coef":
